@@ -275,7 +275,7 @@ func filterIgnored(
 ) ([]diagnostic, error) {
 	couldHaveMatched := func(ig *lineIgnore) bool {
 		for _, c := range ig.Checks {
-			if c.String() == "u1000" {
+			if m, _ := filepath.Match(c.String(), "u1000"); m {
 				// We never want to flag ignores for U1000,
 				// because U1000 isn't local to a single
 				// package. For example, an identifier may
@@ -290,9 +290,15 @@ func filterIgnored(
 			// still only flag unmatched ignores for the set of
 			// analyzers the user has expressed interest in. That way,
 			// `staticcheck -checks=SA1000` won't complain about an
-			// unmatched ignore for an unrelated check.
-			if allowedAnalyzers[c] {
-				return true
+			// unmatched ignore for an unrelated check. Names are glob
+			// patterns, as they are when matching diagnostics.
+			for name, allowed := range allowedAnalyzers {
+				if !allowed {
+					continue
+				}
+				if m, _ := filepath.Match(c.String(), name.String()); m {
+					return true
+				}
 			}
 		}
 
